@@ -71,6 +71,10 @@ func VerifH_C19_gelfEnvelopes() {
 		if hasLevel {
 			doc += `,"level":"error"`
 		}
+		if vf.Choose("has-version", 2) == 1 {
+			doc += `,"version":"1.1"` // e.g. the HTTP version of an access-log record
+			w += `,"_version":"1.1"`
+		}
 		doc += `,"o":{"a":[1]}}`
 		w += `,"_o":"{\"a\":[1]}"`
 		w += `,"version":"1.1"`
